@@ -91,7 +91,8 @@ extern long fiber_verif_runqueue_total(void);
 #define FV_JOIN_CLAIMED 42         // fiber, (intptr_t) previous detach state (join/tryjoin/detach made its claim)
 #define FV_COMPLETION_CLAIMED 43   // fiber, (intptr_t) previous detach state (finishing fiber made its claim)
 #define FV_MUTEX_UNLOCK_MID 44     // mutex, - (counter released, waiter not yet woken)
-#define FV_POINT_MAX 45
+#define FV_TIMER_READ 45           // pointer to the tick count just read from the timer (uint64_t), - (not yet added to the tick base)
+#define FV_POINT_MAX 46
 
 #define FV_MAINT_DONE_FIBER 1
 #define FV_MAINT_TO_SCHEDULE 2
